@@ -442,15 +442,22 @@ async def check_after_reset(world: WorldA, sysm: System, man, watcher: Watcher, 
     await late_traffic(world, sysm, model, snap["transports"])
     t0 = world.now()
     await asyncio.sleep(LATE_WINDOW)
+    # history signature: was the sequence pump inside one of its own locate/connect phases when the reset started?
+    from props.faultscript import pump_phases
+    in_pump_phase = any(a <= snap["t"] <= b for (_k, a, b) in pump_phases([d for d in man.deliveries if d["t"] <= snap["t"]], snap["t"] + 1e9))
     for c in watcher.calls[mark_calls:]:
         if c["gen"] <= snap["gen"]:
+            sig = "late-observer-call:" + c["label"].split(":")[0]
+            if in_pump_phase and inj["kind"] != "library-reset":
+                sig = "late-observer-call:pump-continued-abandoned-connect"
             world.note(PROP, "late-observer-call", f"observer on {c['label']} of the abandoned connection invoked at {c['t']:.2f} by {c['task']}, "
-                          f"reset returned at {t_ret:.2f} ({ctx})", sig="late-observer-call:" + c["label"].split(":")[0])
+                          f"reset returned at {t_ret:.2f} ({ctx})", sig=sig)
     pump_new_start = None
     for d in man.deliveries[mark_deliv:]:
         if d["task_key"] in old_keys:
             world.note(PROP, "late-event", f"event {d['event'].name} delivered at {d['t']:.2f} by {d['task']} of the abandoned connection, "
-                          f"reset returned at {t_ret:.2f} ({ctx})", sig="late-event:" + d["task"].split(":")[0])
+                          f"reset returned at {t_ret:.2f} ({ctx})",
+                          sig="late-event:pump-continued-abandoned-connect" if (in_pump_phase and inj["kind"] != "library-reset") else "late-event:" + d["task"].split(":")[0])
         if d["task"] == "SPAMAN:Sequence Pump":
             n = d["event"].name
             if n in ("CONNECTION_STARTED", "LOCATING_STARTED") and pump_new_start is None:
